@@ -22,7 +22,7 @@ for p in "$ROOT"/selftest/$ID/*.patch; do
   if [ $rc -eq 1 ] && [ "$nv" -gt 0 ]; then echo "$ID $n: CAUGHT ($nv violations) $sig"; else echo "$ID $n: MISSED rc=$rc"; rc_all=1; tail -5 "$TMP/$n.log"; fi
   (cd "$TMP/repo" && patch -R -p1 -s < "$p")
   # remove the replay files this mutant run created
-  comm -13 <(echo "$before") <(ls "$ROOT/replays" | sort) | while read f; do rm -f "$ROOT/replays/$f"; done
+  comm -13 <(echo "$before") <(ls "$ROOT/replays" | sort) | grep -v "^kf-" | while read f; do rm -f "$ROOT/replays/$f"; done
 done
 rm -rf "$TMP" "$ROOT/build/alt-cfgmut-asan"
 exit $rc_all
